@@ -118,7 +118,10 @@ func c04Gen(r *Rng) c04Input {
 // c04Run executes Reports on a factory-built plugin configured with in.Cfg.
 func c04Run(t *testing.T, in c04Input) c04Impl {
 	conf := fmt.Sprintf(`{"maxUpkeepBatchSize":%d,"gasLimitPerReport":%d,"gasOverheadPerUpkeep":%d}`, in.Cfg.Batch, in.Cfg.GasLimit, in.Cfg.Overhead)
-	node := NewNode(t, NodeOpts{N: 4, F: 1, OffchainConfig: []byte(conf)})
+	// the factory has built an instance for ANOTHER config before (limits must be this instance's, not the first's)
+	decoy := &NodeOpts{N: 7, F: 2, OffchainConfig: []byte(fmt.Sprintf(`{"maxUpkeepBatchSize":%d,"gasLimitPerReport":%d,"gasOverheadPerUpkeep":%d}`,
+		in.Cfg.Batch%7+1, in.Cfg.GasLimit/2+1000, in.Cfg.Overhead+17))}
+	node := NewNode(t, NodeOpts{N: 4, F: 1, OffchainConfig: []byte(conf), Decoy: decoy})
 	time.Sleep(1500 * time.Millisecond) // let every service reach its running state (virtual time)
 	defer func() {
 		node.Close()
